@@ -30,6 +30,8 @@ void h_run(Case &c) {
   if (hwloc_get_nbobjs_by_type(t, HWLOC_OBJ_MISC) > 0) { rich = true; c.cls("pre:misc"); }
   { std::string m = dump_memattrs(t, DUMP_GP); if (m.find(" target ") != std::string::npos) { rich = true; c.cls("pre:memattr-values"); } }
   for (auto o : all_objs(t)) if (o->infos.count) { rich = true; break; }
+  for (hwloc_obj_t n = NULL; (n = hwloc_get_next_obj_by_type(t, HWLOC_OBJ_NUMANODE, n));) if (!n->attr->numanode.local_memory && n->attr->numanode.page_types_len) { c.cls("pre:memoryless-numa-node-with-page-types"); break; }
+  if (!sp.xmlbuf.empty()) c.cls("source:generated-xml");
   std::string dump_o = dump_topology(t), xml_o = export_xml(t);
   hwloc_topology_t cp = NULL;
   int r = hwloc_topology_dup(&cp, t);
